@@ -47,7 +47,7 @@ Aspects == CASE Focus = "all"    -> AllAspects
              [] Focus = "C05"    -> {"nonce"}
              [] Focus = "C06"    -> {"refused"}
              [] Focus = "C07"    -> {"withdraw", "serial"}
-             [] Focus = "C08"    -> {"sel", "time"}
+             [] Focus = "C08"    -> {"sel", "time", "peers"}     \* ("not already its peer": the tracked peer sets are part of the selection)
              [] Focus = "C09"    -> {"reg"}
              [] Focus = "C10"    -> {"snapshot", "serial", "ledger", "total", "peers", "links", "noncefull", "reg", "withdraw", "time"}
              [] Focus = "C10race" -> {"total", "nonce", "snapshot", "reads"}
